@@ -268,6 +268,14 @@ def one_model(ctx, prog, script, rng):
                         m = fresh()
                         rec.plain(m, endo[0])[src] = bad
                         _rejection(ctx, m, t, dict(errors='raise', offset=src - t), None, 'pre-existing non-finite via offset', script, n)
+                        if extra_check:
+                            # a watched variable that no equation assigns is read at t itself (an offset copies endogenous values only)
+                            m = fresh()
+                            rec.plain(m, extra_check[0])[t] = bad
+                            _rejection(ctx, m, t, dict(errors='raise', offset=src - t), None, 'pre-existing non-finite in a non-endogenous check variable, with offset', script, n)
+                            m = fresh()
+                            rec.plain(m, extra_check[0])[t] = bad
+                            _rejection(ctx, m, t, dict(errors='raise'), None, 'pre-existing non-finite in a non-endogenous check variable', script, n)
 
 
 def _rejection(ctx, m, t, kw, exc, label, script, n):
